@@ -155,7 +155,7 @@ def run_job(job):
             zs = np.array([unhex(t) for t in call["zs"]], dtype=float)
             params = [unhex(t) for t in call["params"]]
             try:
-                eq_numpy, integ, eqs = build_eq(lk, call["fstr"], len(params), bool(call.get("try_integration")))
+                eq_numpy, integ, eqs = build_eq(lk, call["fstr"], len(params), bool(call.get("try_integration")), tmax=call.get("tmax", 5))
                 r["integrated"] = integ
                 r["eq"] = eqs
                 with warnings.catch_warnings():
